@@ -335,11 +335,11 @@ def generate(rng, tier, outdir):
     w = CaseWriter(outdir, IMPORTS, case_types={"chk_fc": "fc_case"})
     w.SHARD = 40
     quick = tier == "quick"
-    n_main = 330 if quick else 6000
-    n_small = 0 if quick else 1500
+    n_main = 330 if quick else 2500
+    n_small = 0 if quick else 900
     n_mal = 40 if quick else 300
     max2q = 10 if quick else 25
-    visit_cap = 3000 if quick else 20000
+    visit_cap = 2000 if quick else 2000
 
     def emit(group, inp, nontrivial=None, thin=False):
         case = dict(kind=group, input=inp)
